@@ -59,12 +59,13 @@ def abort_sweep(chk):
   from vf import build, explore  # noqa: F401
   quick = chk.tier == 'quick'
   jobs = []
-  for prog_name, source in (('group', 'thread'), ('group', 'sigint'), ('start', 'thread'), ('nested', 'thread'), ('stubborn', 'thread')):
-    roots = explore.split_roots(c04.make_run(prog_name, source, 1), 1, 6)
+  for prog_name, source, na in (('group', 'thread', 1), ('group', 'sigint', 1), ('start', 'thread', 1), ('nested', 'thread', 1),
+                                ('stubborn', 'thread', 1), ('deadline', 'none', 0)):
+    roots = explore.split_roots(c04.make_run(prog_name, source, na), 1, 6)
     cap = 4000 if quick else 40000
     per = max(50, cap // max(1, len(roots)))
     for r in roots:
-      jobs.append((prog_name, source, 1, 1, r, per))
+      jobs.append((prog_name, source, na, 1, r, per))
   seeds = [chk.seed * 7919 + i for i in range(150 if quick else 2000)]
   rjobs = [('group', 'thread', 1, seeds[k::6]) for k in range(6)]
   with mp.Pool(14, maxtasksperchild=8) as pool:
